@@ -37,10 +37,12 @@ fn shim_retain_unexpired<V>(tuples: &mut Vec<(V, Instant)>, now: Instant)
 fn shim_hashmap_keys<K: Copy + Eq + Hash, V>(m: &HashMap<K, V>) -> (r: Vec<K>)
     ensures forall|k: K| r@.contains(k) <==> m@.contains_key(k), r@.no_duplicates()
 { m.keys().copied().collect::<Vec<K>>() }
+pub open spec fn positive_ttl() -> spec_fn(ResourceRecord) -> bool { |rr: ResourceRecord| rr.ttl > 0 }
 // R21: `rrs.retain(|rr| rr.ttl > 0)`
 #[verifier::external_body]
 fn shim_retain_positive_ttl(rrs: &mut Vec<ResourceRecord>)
-    ensures final(rrs)@ == old(rrs)@.filter(|rr: ResourceRecord| rr.ttl > 0)
+    ensures final(rrs)@ == old(rrs)@.filter(positive_ttl()),
+        forall|j: int| 0 <= j < final(rrs)@.len() ==> old(rrs)@.contains(#[trigger] final(rrs)@[j]),
 { rrs.retain(|rr| rr.ttl > 0); }
 """
 
@@ -76,9 +78,11 @@ SPECS = {
     "Cache::get_without_checking_expiration": {"props": ["C05"], "extra_rewrites": [("R17", r"for tuples in records\.values\(\)", "for tuples in itv__: shim_hashmap_values(records)")],
         "contract": """    requires old(self).inner.wf(),
     ensures final(self).inner.wf(), same_records(old(self).inner, final(self).inner), // [C05:lookup_leaves_records_unchanged]
-        exists|now: Instant| is_now(now) && #[trigger] lookup_result(r@, old(self).inner.partitions@, *name, qtype, now), // [C05:lookup_returns_stored_records_with_time_left]""",
+        exists|now: Instant| is_now(now) && #[trigger] lookup_result(r@, old(self).inner.partitions@, *name, qtype, now), // [C05:lookup_returns_stored_records_with_time_left]
+        forall|x: int| 0 <= x < r@.len() ==> (#[trigger] r@[x]).name == *name, // [C05,C10:lookup_returns_records_owned_by_the_asked_name]""",
         "loops": {"0": {"kw": "for", "spec": """                        invariant
                             values_of(recs_g, itv__.seq()),
+                            all_named(rrs@, *name),
                             forall|j: int, i: int| #![trigger itv__.seq()[j]@[i]] 0 <= j < itv__.index@ && 0 <= i < itv__.seq()[j]@.len() ==> rrs@.contains(rr_of(*name, itv__.seq()[j]@[i], now)),
                             forall|x: int| 0 <= x < rrs@.len() ==> exists|j: int, i: int| 0 <= j < itv__.index@ && 0 <= i < itv__.seq()[j]@.len() && #[trigger] rrs@[x] == rr_of(*name, #[trigger] itv__.seq()[j]@[i], now),
                             itv__.index@ == itv__.seq().len() ==> any_cached(rrs@, recs_g, *name, now),""",
@@ -132,7 +136,9 @@ assert(idx + 1 == itv__.seq().len() ==> any_cached(rrs@, recs_g, *name, now)) by
     ensures final(self).inner.wf(), same_records(old(self).inner, final(self).inner),
         forall|j: int| 0 <= j < r@.len() ==> (#[trigger] r@[j]).ttl > 0, // [C05:never_serves_a_record_with_no_time_left]
         exists|now: Instant, all: Seq<ResourceRecord>| is_now(now) && #[trigger] lookup_result(all, old(self).inner.partitions@, *name, qtype, now)
-            && r@ == all.filter(|rr: ResourceRecord| rr.ttl > 0), // [C05:serves_exactly_the_stored_records_with_time_left]"""},
+            && r@ == all.filter(positive_ttl()), // [C05:serves_exactly_the_stored_records_with_time_left]
+        forall|j: int| 0 <= j < r@.len() ==> (#[trigger] r@[j]).name == *name, // [C05,C10:lookup_returns_records_owned_by_the_asked_name]""",
+        "anchors": [{"after": "let mut rrs = self.get_without_checking_expiration(name, qtype);", "proof": "let ghost all__ = rrs@;"}]},
     "Cache::insert": {"props": ["C05", "C15"],
         "contract": """    requires old(self).inner.wf(), old(self).inner.current_size < usize::MAX,
     ensures final(self).inner.wf(), final(self).inner.desired_size == old(self).inner.desired_size,""",
@@ -268,6 +274,7 @@ def build(G):
     G.item(C, "struct", "PartitionedCache", drop_derive=("Clone", "Debug"), pre_attrs="#[verifier::reject_recursive_types(K1)]\n#[verifier::reject_recursive_types(K2)]")
     G.item(C, "struct", "Partition", drop_derive=("Clone", "Debug", "Eq", "PartialEq"), pre_attrs="#[verifier::reject_recursive_types(K)]")
     G.item(C, "struct", "Cache", drop_derive=("Clone", "Debug"))
+    G.raw(ALL_NAMED_RS, ("spec", "all_named"))
     G.file(os.path.join(VERIF, "units", "cache.spec.rs"))
     specs = adapt(SPECS, C)
     for f in ("with_desired_size", "get_partition_without_checking_expiration", "get_without_checking_expiration", "upsert", "remove_expired", "prune", "remove_expired_step", "remove_least_recently_used"):
@@ -293,13 +300,20 @@ impl LockedCache {
     pub fn insert(&mut self, record: &ResourceRecord)
         requires record.ttl > 0, // [C05:shared_cache_never_stores_ttl_zero]
     { unimplemented!() }
+    // Cache::get as proved above (the clause the resolver relies on)
+    #[verifier::external_body]
+    pub fn get(&mut self, name: &DomainName, qtype: QueryType) -> (r: Vec<ResourceRecord>)
+        ensures all_named(r@, *name), forall|j: int| 0 <= j < r@.len() ==> (#[trigger] r@[j]).ttl > 0,
+    { unimplemented!() }
 }
 #[verifier::external_body]
 fn shim_lock_cache(c: &SharedCache) -> (r: LockedCache) { unimplemented!() }""", ("spec", "SharedCache stand-in (R9)"))
     r9 = [("R9", r"self\.cache\.lock\(\)\.expect\(MUTEX_POISON_MESSAGE\)", "shim_lock_cache(self)")]
     specs["SharedCache::insert"] = {"props": ["C05"], "contract": "", "rewrites": r9}
     specs["SharedCache::insert_all"] = {"props": ["C05"], "contract": "", "rewrites": r9}
-    G.impl(C, "SharedCache", ["insert", "insert_all"], "SharedCache::", specs)
+    specs["SharedCache::get"] = {"props": ["C05", "C10"], "rewrites": [("R9", r"self\.cache\s*\.lock\(\)\s*\.expect\(MUTEX_POISON_MESSAGE\)", "shim_lock_cache(self)")], "contract": """    ensures all_named(r@, *name), // [C05,C10:lookup_returns_records_owned_by_the_asked_name]
+        forall|j: int| 0 <= j < r@.len() ==> (#[trigger] r@[j]).ttl > 0, // [C05:never_serves_a_record_with_no_time_left]"""}
+    G.impl(C, "SharedCache", ["get", "insert", "insert_all"], "SharedCache::", specs)
     end(G)
 
 
